@@ -32,6 +32,21 @@ DESC = {
  "C14-A": ("C14", "Satisfies re-expands 'small' expressions; the size estimate (product of alternatives, int) overflows", "an AND of >= 63 two-way OR groups (about 1.1-1.6 KB) or 40 three-way groups: the overflowed count passes the check and expand() builds 2^63 parts"),
  "C14-B": ("C14", "isSatisfiedBy evaluates the shallower operand first using depth(), which recurses twice into the left child when it is the deeper one", "a left-nested parenthesised chain about 25+ levels deep (a few hundred bytes): time doubles per level, nothing is allocated"),
  "C15-A": ("C15", "the -or-later rewrite adds a constant 8 to the removed-byte count", "an unknown/missing id preceded by an unlisted X-or-later directly followed by '+' (9 bytes dropped): later offsets are 1 too small"),
+ "C01-R2": ("C01", "sortAndDedup compares adjacent allowed nodes with licensesExactlyEqual (EqualFold) instead of !=; case-variant references count as duplicates and the in-place compaction overwrites the later one", "an allowed list holding two references spelled the same except for case plus an entry that sorts after them; the expression uses the lower-case spelling"),
+ "C02-R2": ("C02", "getLicenseRange builds a process-wide sync.Map index on first use; the 'built' flag is set by CompareAndSwap BEFORE the index is filled and other callers do not wait", "two goroutines make the process's first range-needing Satisfies calls at the same moment: the loser looks up in a half-built index and answers false for an in-family pair"),
+ "C03-R2": ("C03", "activeLicense uses a sorted lower-case index searched with sort.SearchStrings and reads keys[i] without checking i == len(keys)", "an id that sorts after the last active id (ZPL-2.1-only, zzz, ZPL-3.0): index out of range in all three functions"),
+ "C04-R2": ("C04", "recursion-depth guard (64) in parseExpression that also counts the parser's self-recursion for the right operand of every OR", "a valid expression with 65+ operands ORed on one level (or 64+ nested parentheses) is rejected by all three entry points"),
+ "C05-R2": ("C05", "nesting guard whose depth counter goes up on every '(' and never down on ')'", "a valid expression with 33 or more '(' in total at any nesting depth"),
+ "C06-R2": ("C06", "leaves() rewritten as an iterative level-by-level walk that queues sub-groups into groups[:0] while ranging over groups", "nesting depth 3 and >= 8 terms: a parenthesised non-last operand holding two parenthesised operands and followed by another parenthesised operand loses that sibling's terms"),
+ "C07-R2": ("C07", "Satisfies uses the slice returned by sortAndDedup, whose new field-by-field comparison ignores the DocumentRef value", "an allowed list with one LicenseRef id under two different DocumentRefs: the later one is dropped, adding an entry turns satisfied into not satisfied"),
+ "C08-R2": ("C08", "unsynchronised one-entry package-level cache in the scanner branch that turns 'X+' into the X-or-later token, id stored before token", "two goroutines using the X+ spelling of different deprecated GNU ids concurrently: one gets the other's token / the cache stays poisoned"),
+ "C09-R2": ("C09", "the scanner keeps a lower-cased copy of the expression that is patched differently from the real buffer when X-or-later+ is rewritten (one byte out of step afterwards)", "one expression containing an unlisted X-or-later+ followed later by a listed id in upper or mixed case"),
+ "C10-R2": ("C10", "parse-time collapse of 'X op X' into X, equality decided with EqualFold", "two references differing only in letter case as the two direct operands of one AND/OR"),
+ "C11-R2": ("C11", "licensesAreCompatible returns false early when the 'base license' (id minus suffix minus everything after the last '-') differs", "the one family whose version part contains a hyphen: Brian-Gladman-2-Clause / -3-Clause"),
+ "C12-R2": ("C12", "generator emits the tables as package-level variables and the getters return append(table[:0], table...), i.e. the shared backing array", "get a table, write into the returned slice, call the getter or validate again"),
+ "C13-R2": ("C13", "scan() takes its stream and token buffer from a sync.Pool and puts them back on return while parse() still reads the tokens; only buffers of >= 17 tokens are pooled", "concurrent calls after an expression of 17+ tokens, one goroutine descheduled between scan's return and the end of parse"),
+ "C14-R2": ("C14", "operands() flattening passes the accumulator down AND appends the returned slice for a parenthesised same-operator left operand", "20+ parenthesised groups joined by the operator used inside them: the operand list doubles per group"),
+ "C15-R2": ("C15", "last-resort branch accepts X-or-later for deprecated-only ids and rewrites the buffer without adding to the removed-byte count", "a prefix spelling -or-later on a deprecated id without a listed -or-later form (eCos-2.0-or-later), followed by an unknown or missing id"),
  "C15-B": ("C15", "one expressionStream is reused for the whole allowed list; re-pointing it does not reset the removed-byte count", "Satisfies with an allowed list in which an unlisted -or-later entry comes before the bad entry: the reported offset lies outside the bad entry"),
 }
 def matrix(path):
@@ -45,16 +60,21 @@ def matrix(path):
         out[cells[0]] = [i for i, c in zip(ids, cells[1:]) if 'X' in c]
     return out
 base = matrix(os.path.join(ROOT, 'seeded', 'RESULTS-baseline.md'))
+R2BASE = {"C01-R2": ["C01", "C07"], "C02-R2": [], "C03-R2": ["C03"], "C04-R2": [], "C05-R2": [], "C06-R2": [], "C07-R2": [], "C08-R2": ["C13"], "C09-R2": [],
+          "C10-R2": ["C06"], "C11-R2": ["C11"], "C12-R2": ["C13"], "C13-R2": [], "C14-R2": ["C14"], "C15-R2": []}
+base.update(R2BASE)
 final = matrix(os.path.join(ROOT, 'seeded', 'RESULTS.md'))
 for name, (prop, what, needs) in DESC.items():
     d = os.path.join(ROOT, 'seeded', name)
     demo = 'demo/main.go' if os.path.exists(os.path.join(d, 'demo', 'main.go')) else 'demo_test.go'
     meta = {
       "id": name, "breaks_property": prop, "change": what, "needs_to_manifest": needs,
-      "origin": "written by an independent sub-agent that was given only the text of the property and its own scratch worktree of /repo",
+      "origin": ("written by an independent sub-agent that was given only the text of the property, its own scratch worktree of /repo and one sentence naming what earlier rounds had already tried (so that it would do something different); nothing from /verif" if not name[-1] in "AB" else "written by an independent sub-agent that was given only the text of the property and its own scratch worktree of /repo"),
       "files": {"patch": "patch.diff", "demonstration": demo, "author_notes": "README.txt"},
       "confirmed_by_me": "in the scratch worktree: git apply patch.diff; go build ./...; go vet ./spdxexp/...; go test -count=1 ./spdxexp/... ./cmd/... all pass; the demonstration fails with the patch and passes on the clean checkout (verify.sh, both directions)",
+      "round": 3 if name.endswith("-R3") else 2 if name.endswith("-R2") else 1,
       "detected_by_quick_checks_before_strengthening": base.get(name),
+      "note_on_baseline": ("round 2: targeted runs only (own property's check and related ones), see RESULTS-R2-baseline.md" if name.endswith("-R2") else "all 15 quick checks, see RESULTS-baseline.md"),
       "detected_by_quick_checks": final.get(name),
       "how_run": "tools/matrix.sh (patch applied to a scratch worktree of /repo, every quick check run against it with VERIF_REPO; /repo untouched)",
     }
